@@ -220,7 +220,14 @@ func quote(v rt.Value) (string, bool) {
 	}
 	switch v.Type() {
 	case rt.IntType:
-		return strconv.Itoa(int(v.AsInt())), true
+		n := v.AsInt()
+		if n == math.MinInt64 {
+			// The decimal numeral would be read back as a float because
+			// 9223372036854775808 doesn't fit an integer.  Hexadecimal numerals
+			// wrap around so this one is an integer.
+			return "0x8000000000000000", true
+		}
+		return strconv.FormatInt(n, 10), true
 	case rt.FloatType:
 		x := v.AsFloat()
 		if math.IsInf(x, 0) {
